@@ -104,10 +104,27 @@ func (x *g) genGadgetService() {
 	if x.r.Derive(0xf117e5).Chance(1, 2) {
 		sizes.HTTP.Query = append(sizes.HTTP.Query, spec.Loc{Attr: "filters"})
 	}
+	// 7. primitive alias types that declare a default of their own, used by attributes that declare ANOTHER default:
+	// the attribute's default is the one unset values take, in requests (query, body) and responses (header, body)
+	gtok := &spec.UserType{Name: x.typeName("GTok"), Kind: "alias", Def: str(), AliasDefault: vtree.S("type-level")}
+	gnum := &spec.UserType{Name: x.typeName("GNum"), Kind: "alias", Def: intT(), AliasDefault: vtree.I(3)}
+	x.s.Types = append(x.s.Types, gtok, gnum)
+	tok := func(n, d string) *spec.Attr {
+		return &spec.Attr{Name: n, Type: &spec.Type{Kind: spec.Ref, Ref: gtok.Name}, Default: vtree.S(d), HasDef: true}
+	}
+	num := func(n string, d int64) *spec.Attr {
+		return &spec.Attr{Name: n, Type: &spec.Type{Kind: spec.Ref, Ref: gnum.Name}, Default: vtree.I(d), HasDef: true}
+	}
+	dflt := &spec.Method{Name: "dflt", NoSec: nosec,
+		Payload: &spec.Attr{Type: &spec.Type{Kind: spec.Object, Attrs: []*spec.Attr{tok("pq", "attr-q"), num("pn", 8), tok("pb", "attr-b"), {Name: "note", Type: str()}}}},
+		Result:  &spec.Attr{Type: &spec.Type{Kind: spec.Object, Attrs: []*spec.Attr{tok("hb", "attr-h"), num("nb", 8), tok("bb", "attr-bb"), {Name: "note", Type: str()}}}},
+		HTTP: &spec.HTTP{Routes: []spec.Route{{Verb: "POST", Path: "/dflt"}},
+			Query:     []spec.Loc{{Attr: "pq"}, {Attr: "pn"}},
+			Responses: []*spec.HTTPResponse{{Status: 200, Headers: []spec.Loc{{Attr: "hb", Wire: "X-G-Hb"}}}}}}
 	// a change that breaks the whole-body methods at compile time must not hide the others: one variant per design
-	methods := []*spec.Method{jar, blob, sizes, sheet}
+	methods := []*spec.Method{jar, blob, sizes, sheet, dflt}
 	if gr.Chance(1, 2) {
-		methods = []*spec.Method{jar, grid, cells, blob, sizes}
+		methods = []*spec.Method{jar, grid, cells, blob, sizes, dflt}
 	}
 	x.s.Services = append(x.s.Services, &spec.Service{Name: "gadgets", BasePath: "/gadgets", Methods: methods})
 	x.s.AddFeature("gadget-service", "response-cookies-several", "tagged-response-explicit-body", "result-collection-of-collections-of-usertype",
